@@ -204,3 +204,111 @@ if __name__ == "__main__":
     b, s = run(int(sys.argv[1]) if len(sys.argv) > 1 else 0, int(sys.argv[2]) if len(sys.argv) > 2 else 2000)
     print(json.dumps(s, indent=1))
     print(json.dumps(b[:10], indent=1))
+
+
+# ---- component adaption methods (Gen/Components.lean) ---------------------------------------------------
+def _cp_of(pit):
+    """stand-in for get_branch_cp / density / viscosity: a deterministic function of the row, so that row subsets
+    (`pit[mask]`) get the values of their own rows"""
+    from pandapipes import idx_branch as ib
+    return 3900.0 + 0.5 * pit[:, ib.TOUTINIT] + 7.0 * pit[:, ib.ELEMENT_IDX]
+
+
+def check_component(driver, rng, meta, n):
+    """call the real class method on random pits (module-level helpers that evaluate fluid properties or fetch the
+    component array are replaced for the duration of the call) and compare every written column row by row"""
+    from pandapipes import idx_branch as ib, idx_node as inode
+    mod = _module(meta["pyfile"])
+    cls = getattr(mod, meta["class"])
+    bp, npit, named = make_inputs(rng, n, {})
+    bp[:, ib.ELEMENT_IDX] = np.arange(n)
+    bp[:, ib.FROM_NODE_T_SWITCHED] = (rng.random(n) < 0.3).astype(float)
+    bp[:, ib.BRANCH_TYPE] = rng.choice([0.0, 1.0, 2.0], n)
+    bp[:, ib.JAC_DERIV_DP] = rng.normal(0, 1, n)
+    bp[:, ib.JAC_DERIV_DP1] = rng.normal(0, 1, n)
+    bp[:, ib.JAC_DERIV_DM] = rng.normal(0, 1, n)
+    bp[:, ib.LOAD_VEC_BRANCHES] = rng.normal(0, 1, n)
+    bp[:, ib.JAC_DERIV_DT] = rng.normal(0, 1, n)
+    bp[:, ib.JAC_DERIV_DTOUT] = rng.normal(0, 1, n)
+    bp[:, ib.LOAD_VEC_BRANCHES_T] = rng.normal(0, 1, n)
+    # make equal in / out temperatures and zero duties occur (they select branches of the QE_TR logic)
+    eq = rng.random(n) < 0.15
+    bp[eq, ib.TOUTINIT] = np.where(bp[eq, ib.FROM_NODE_T_SWITCHED] > 0, npit[1::2, inode.TINIT][eq], npit[0::2, inode.TINIT][eq])
+    consts = meta["class_consts"]
+    ncols = max([v for k, v in consts.items() if k == "internal_cols"] + [8])
+    comp = np.zeros((n, ncols))
+    for k, v in consts.items():
+        if k.isupper() and k != "MODE" and v < ncols and ("c_" + k) in [e[0] for e in meta["extra"]]:
+            comp[:, v] = rng.uniform(0.5, 40.0, n)
+    if "MODE" in consts:
+        comp[:, consts["MODE"]] = rng.integers(0, 7, n)
+    if "CONTROL_ACTIVE" in consts:
+        comp[:, consts["CONTROL_ACTIVE"]] = rng.integers(0, 2, n)
+    if "PRESSURE_RATIO" in consts:
+        comp[:, consts["PRESSURE_RATIO"]] = rng.uniform(1.0, 2.0, n)
+    ref_bp, ref_np = bp.copy(), npit.copy()
+    saved = {}
+    patches = {"get_component_array": lambda net, name, *a, **k: comp, "get_fluid": lambda net: None,
+               "get_branch_cp": lambda fluid, node_pit, pit: _cp_of(pit),
+               "get_branch_real_density": lambda fluid, node_pit, pit: _cp_of(pit),
+               "get_branch_real_eta": lambda fluid, node_pit, pit: _cp_of(pit)}
+    for k, f in patches.items():
+        if hasattr(mod, k):
+            saved[k] = getattr(mod, k)
+            setattr(mod, k, f)
+    try:
+        getattr(cls, meta["pyfunc"])(None, ref_bp, ref_np, None, None, {cls.table_name(): (0, n)}, {})
+    finally:
+        for k, f in saved.items():
+            setattr(mod, k, f)
+    cpv = _cp_of(bp)
+    lines = []
+    for i in range(n):
+        vals = []
+        for r in meta["rows"]:
+            vals.extend(bp[i] if r == "b" else (npit[2 * i] if r == "nf" else npit[2 * i + 1]))
+        for nm, ty in meta["extra"]:
+            if nm.startswith("c_"):
+                vals.append(float(comp[i, consts[nm[2:]]]))
+            else:
+                vals.append(float(cpv[i]))
+        lines.append("kernel %s %s" % (meta["lean_name"], " ".join(f2hex(v) for v in vals)))
+    out = driver.run(lines)
+    bad, worst = [], 0
+    for i, line in enumerate(out):
+        if line.startswith("bad"):
+            return [{"kernel": meta["lean_name"], "error": line}], 0
+        got = [hex2f(h) for h in line.split()]
+        for (nm, ty), g in zip(meta["outputs"], got):
+            ref = float(ref_bp[i, getattr(ib, nm)])
+            d = 0 if (ref == g or (ref != ref and g != g)) else ulp_diff(ref, g)
+            worst = max(worst, d if d < (1 << 61) else 0)
+            if d > 0 and len(bad) < 5:
+                bad.append({"kernel": meta["lean_name"], "python": "%s:%s.%s" % (meta["pyfile"], meta["class"], meta["pyfunc"]),
+                            "output": nm, "row": i, "python_value": ref, "model_value": g,
+                            "ulp": d if d < (1 << 61) else "nan-mismatch", "inputs_hex": lines[i][:400]})
+    # columns the model does not list must be untouched by the real method
+    listed = {getattr(ib, nm) for nm, _ in meta["outputs"]}
+    other = [c for c in range(bp.shape[1]) if c not in listed]
+    same = (ref_bp[:, other] == bp[:, other]) | (np.isnan(ref_bp[:, other]) & np.isnan(bp[:, other]))
+    if not same.all() or not np.array_equal(ref_np, npit, equal_nan=True):
+        bad.append({"kernel": meta["lean_name"], "error": "the real method writes a column the generated model does not list",
+                    "columns": [int(other[c]) for c in np.flatnonzero(~same.all(axis=0))][:5]})
+    return bad, worst
+
+
+def run_components(seed, n_per):
+    rng = np.random.default_rng([seed, 77])
+    driver = LeanDriver()
+    metas = gen_meta().get("components") or []
+    bad_all, stats = [], {}
+    if not metas:
+        return [{"kernel": "components", "error": "no generated component models (generator failed?)"}], {}
+    for meta in metas:
+        try:
+            bad, worst = check_component(driver, rng, meta, n_per)
+        except Exception as e:
+            bad, worst = [{"kernel": meta["lean_name"], "error": "harness: %r" % (e,)}], -1
+        stats[meta["lean_name"]] = {"inputs": n_per, "max_ulp": worst, "disagreements": len(bad)}
+        bad_all.extend(bad)
+    return bad_all, stats
